@@ -10,6 +10,7 @@ package interp
 import (
 	"fmt"
 	"go/ast"
+	"go/token"
 	"go/types"
 	"strings"
 )
@@ -108,6 +109,13 @@ func (s *Sym) Equal(t *Sym) (eq, known bool) {
 	if (aok && a == "") || (bok && b == "") {
 		return false, true // a token is never the empty string
 	}
+	// distinct tokens are distinct atoms: coincidences between input names are
+	// modelled by separate environments, not by aliasing of tokens
+	if ta, ok := s.SingleTok(); ok {
+		if tb, ok := t.SingleTok(); ok {
+			return ta == tb, true
+		}
+	}
 	return false, false
 }
 
@@ -178,6 +186,10 @@ type Opaque struct {
 	Kind  string
 	ID    string
 	Attrs map[string]Value
+	// GoType is the dynamic Go type the value stands for (for type assertions), e.g. "*go/types.Signature".
+	GoType string
+	// Methods models methods of the value; they take precedence over Machine.Ext.
+	Methods map[string]func(m *Machine, pos token.Pos, args []Value) (Value, error)
 }
 
 // Unknown is a value the abstract domain cannot represent.
